@@ -223,10 +223,11 @@ def d4_interval_indexing(ctx):
         if lps:
             body = [astx.u(s) for s in lps[0].body]
             i, b = [astx.u(x) for x in lps[0].target.elts]
-            good = body == [f"ranking[{i}] = frozenset({{cand_ordering_by_bloc[{b}][0]}})", f"cand_ordering_by_bloc[{b}].pop(0)"]
+            good = body in ([f"ranking[{i}] = frozenset({{cand_ordering_by_bloc[{b}][0]}})", f"cand_ordering_by_bloc[{b}].pop(0)"],
+                            [f"ranking[{i}] = frozenset({{cand_ordering_by_bloc[{b}].pop(0)}})"])
         ctx.check(good, f, lps[0] if lps else f.node, f"{f.short}: position i takes the next unused candidate of the slate the type names", "", "ballot assembly from the type changed")
     f = prog.find_func("AlternatingCrossover.generate_profile")
-    defs = {astx.u(n.targets[0]): astx.u(n.value) for n in astx.walk_own(f.node) if isinstance(n, ast.Assign) and isinstance(n.targets[0], ast.Name)}
+    defs = astx.single_assignments(f.node, names_only=True)
     good = defs.get("pref_interval_dict") == "self.pref_intervals_by_bloc[bloc]" and defs.get("opposing_slate") == "self.blocs[(i + 1) % 2]" \
         and defs.get("pref_for_bloc") == "list(pref_interval_dict[bloc].interval.values())" and defs.get("pref_for_opposing") == "list(pref_interval_dict[opposing_slate].interval.values())"
     ctx.check(good, f, f.node, "AlternatingCrossover: own / opposing slate intervals of the voter's bloc", "", "AlternatingCrossover interval indexing changed")
